@@ -60,6 +60,20 @@ def V( T, k, _s=None ):
 '''
 
 
+def _nested_slice_form(D, o, text):
+    ob = D.objs[o - 1]
+    if ob["s"] == 0:
+        return text
+    m = re.match(r"^(.*)\[(\d+):(\d+)\]$", ob["suf"])
+    if not m:
+        return text
+    pre, lo, hi = m.group(1), int(m.group(2)), int(m.group(3))
+    plo, phi = VIEWS[D.sigs[ob["s"] - 1]["ty"]][pre][:2]
+    w = phi - plo
+    assert text.endswith("[%d:%d]" % (lo, hi))
+    return text[:-len("[%d:%d]" % (lo, hi))] + "[%d:%d][0:%d]" % (lo, w, hi - lo)
+
+
 class Design:
     """comps: list of (name, parent index or None); comps[0] is the top (repr 's')."""
 
@@ -307,6 +321,10 @@ def gen_variant(D, perm, flips, junkseed, cname):
             if st["k"] == "c":
                 a, b = (st["b"], st["a"]) if flip[si] else (st["a"], st["b"])
                 ea, eb = D.rel_name(a, c), D.rel_name(b, c)
+                if (junkseed + si) % 3 == 1:
+                    # the same objects written as slices of slices (legal in connect statements only):
+                    # x[lo:hi] == x[lo:W][0:hi-lo]; pymtl3 re-registers such a slice on the base signal
+                    ea, eb = _nested_slice_form(D, a, ea), _nested_slice_form(D, b, eb)
                 oa = D.objs[a - 1]
                 sugar = oa["s"] != 0 and (oa["d"] == 0 or oa["suf"].endswith("]")) and (junkseed + si) % 2 == 0
                 B.append("%s //= %s" % (ea, eb) if sugar else "connect( %s, %s )" % (ea, eb))
